@@ -61,6 +61,18 @@ theorem walk_lists_only_entries (paths : List Path) (h : ∀ p ∈ paths, ∀ c 
     (hx : x ∈ walk [] (buildTree paths)) : ∃ p ∈ paths, x = p ∨ ∃ r, p = x ++ sep :: r :=
   buildTree_sound paths h x hx
 
+/-- Hence, for a parent-closed snapshot (what a directory tree on disk is), the walk lists exactly the
+snapshot's paths: `x` is visited iff `x` is an entry. -/
+theorem walk_lists_exactly_the_entries (paths : List Path) (h : ∀ p ∈ paths, ∀ c ∈ comps p, NameOK c)
+    (hclosed : ∀ p ∈ paths, ∀ x r, p = x ++ sep :: r → x ∈ paths) (x : Path) :
+    x ∈ walk [] (buildTree paths) ↔ x ∈ paths := by
+  constructor
+  · intro hx
+    obtain ⟨p, hp, hxp | ⟨r, hr⟩⟩ := walk_lists_only_entries paths h x hx
+    · exact hxp ▸ hp
+    · exact hclosed p hp x r hr
+  · exact walk_lists_every_entry paths h x
+
 /-- non-vacuity: the tree a/{b}, "a b", "a-b" is well-formed and walks as a, a/b, a b, a-b -/
 example : walk [] (.dir [([97], .dir [([98], .file)]), ([97, 32, 98], .file), ([97, 45, 98], .file)])
     = [[97], [97, 47, 98], [97, 32, 98], [97, 45, 98]] := by decide
